@@ -617,6 +617,25 @@ pub fn c04_lang(out: &mut dyn Write, tier: &str, rng: &mut Rng, st: &mut Stats) 
     }
 }
 
+/// C02 for diagrams over named variables (what the parser and the binary produce): the variable order is the
+/// order of the ids, whatever the names look like — names whose alphabetical order disagrees with it (b before a,
+/// x10 after x9) included; the diagram returned must be ordered by id and reduced
+pub fn c02_lang(out: &mut dyn Write, tier: &str, rng: &mut Rng, st: &mut Stats) {
+    let n = if tier == "thorough" { 60000 } else { 1500 };
+    let pool = ["z", "y", "b", "a", "x9", "x10", "B", "_a", "a'"];
+    for i in 0..n {
+        let k = 2 + rng.below(4) as usize;
+        let mut names: Vec<String> = Vec::new();
+        while names.len() < k { let nm = rng.pick(&pool[..]).to_string(); if !names.contains(&nm) { names.push(nm); } }
+        let depth = 1 + rng.below(4) as u32;
+        let gf = { let mut g = Gen { rng, names, allow_fix: i % 7 == 0, big_consts: false, max_list: 3 }; g.gen(depth, &Pol::new()) };
+        let text = Printer { rng, noise: false }.print(&gf);
+        let line = eval_line("C02", &gf, &text, st);
+        writeln!(out, "{}", line).unwrap();
+        st.hit("lang.named");
+    }
+}
+
 pub fn c01(out: &mut dyn Write, tier: &str, rng: &mut Rng, st: &mut Stats) {
     corpus_eval("C01", "C01", out, st);
     convergent_any_polarity("C01", out, tier, rng, st);
